@@ -9,9 +9,10 @@ from hv import Case
 from kern2 import Snap, fr_tok
 
 SPEC = {
-    "lean_modules": ["Honeycomb.Props.C14"],
+    "lean_modules": ["Honeycomb.Props.C14", "Honeycomb.Props.C14b"],
     "required_theorems": ["C14_insertVertices_preserves_WF", "C14_insertVertex_preserves_WF",
-                          "C14_error_leaves_map_unchanged", "C14_new_vertex_position"],
+                          "C14_error_leaves_map_unchanged", "C14_new_vertex_position",
+                          "C14_insertVertices_beta_structure"],
     "trusted_base": [
         "Lean 4.33 kernel; axioms propext, Classical.choice, Quot.sound only",
         "hand-written model Honeycomb/Model/Kernels/{Geom2,VertexInsertion}.lean (+ Stm, Map, Ops, Ops2) tied to /repo by the "
